@@ -43,6 +43,9 @@ var valueSemProgs = []valueSemProg{
 	// the pointer the closure left in the slot)
 	{"catch-reuses-captured-slot", `f := undefined; if true { a := 1; f = func() { return a } }; try { throw "x" } catch e { }; return string(f())`, `1`},
 	{"catch-reuses-captured-slot-in-function", `g := func() { f := undefined; if true { a := [7]; f = func() { return a } }; try { throw "x" } catch e { e = 0 }; return f() }; return g()`, `[7]`},
+	// an array's elements end at its length, whatever capacity append left behind it
+	{"slice-beyond-len-with-spare-capacity", `a := append([1, 2], 3); r := "no error"; try { b := a[2:len(a) + 1]; r = "sliced " + len(b) } catch e { r = e.Name }; return [r, len(a)]`, `["IndexOutOfBoundsError", 3]`},
+	{"index-beyond-len-with-spare-capacity", `a := append([1, 2], 3); b := a[:2]; r := "no error"; try { r = b[2] } catch e { r = e.Name }; r2 := "no error"; try { r2 = b[:3] } catch e { r2 = e.Name }; return [r, len(b), r2]`, `["IndexOutOfBoundsError", 2, "IndexOutOfBoundsError"]`},
 	{"slice-shares-by-reference", `o := [1, 2, 3]; x := o[1:]; x[0] = 9; return [o, x]`, `[[1, 9, 3], [9, 3]]`},
 }
 
